@@ -191,6 +191,9 @@ func (mp *MapV) find(m *Machine, k Value) int {
 	if mp == nil {
 		return -1
 	}
+	if m == nil { // construction of fresh maps by the engine: keys are distinct
+		return -1
+	}
 	if s, ok := k.(string); ok && mp.sidx != nil {
 		if i, ok := mp.sidx[s]; ok {
 			return i
